@@ -19,7 +19,8 @@ RULE = (
     "(in-memory, from_array, from_zarr), derive (any operation of the shared op table applied to pool members), compute (any subset; "
     "optimize on/off; resume on/off; executor schedule/single-threaded/threads or the configured default), store / to_zarr of any "
     "member incl. ancestors of other members and members stored before (eager or lazy; fresh path, group, existing array, aligned "
-    "region), compute of earlier lazy store results, set the default executor via cubed.config, plan / visualize. Every step is "
+    "region), a derived member computed alone and then again together with some of its ancestors with resume on, compute of earlier "
+    "lazy store results, set the default executor via cubed.config, plan / visualize. Every step is "
     "recorded as JSON and applied through one interpreter, so a failing history replays without Hypothesis. After EVERY step: a drawn "
     "pool member computes to its NumPy shadow (fixed when the member was built); all in-memory inputs and input Zarr arrays are "
     "byte-identical to their initial state; every earlier store target still holds its expected image. Non-trivial = the history has "
@@ -380,6 +381,26 @@ def make_machine(max_steps, collected, opts):
             for k in range(2):
                 if self.w.lazy:
                     self._apply({"op": "compute_lazy", "which": data.draw(st.integers(0, 9)), "executor": data.draw(st.sampled_from(EXECS[:3])), "seed": data.draw(st.integers(0, 999))}, data)
+
+        @precondition(lambda self: any(s["op"] == "derive" for s in self.w.steps))
+        @rule(data=st.data())
+        def descendant_then_resume_with_ancestor(self, data):
+            # a derived member is computed on its own (optimized: its ancestors may be fused away and never stored); then it is
+            # computed again together with one of its ancestors with resume on - the ancestor must still be computed
+            derived = [k for k in range(len(self.w.pool)) if self.w.steps[self.w.born[k]]["op"] == "derive"]
+            z = data.draw(st.sampled_from(derived))
+            chain = [z]
+            a = z
+            for _ in range(data.draw(st.integers(1, 3))):
+                st_ = self.w.steps[self.w.born[a]]
+                if st_["op"] != "derive":
+                    break
+                a = data.draw(st.sampled_from(st_["args"]))
+                chain.append(a)
+            ex = data.draw(st.sampled_from(EXECS))
+            self._apply({"op": "compute", "ids": [z], "optimize": True, "resume": data.draw(st.booleans()), "executor": ex, "seed": data.draw(st.integers(0, 999))}, data)
+            self._apply({"op": "compute", "ids": sorted(set(chain), key=chain.index)[::-1] if data.draw(st.booleans()) else list(dict.fromkeys(chain)), "optimize": data.draw(st.sampled_from([True, True, False])),
+                         "resume": True, "executor": data.draw(st.sampled_from(EXECS)), "seed": data.draw(st.integers(0, 999))}, data)
 
         @precondition(lambda self: len(self.w.lazy) > 0)
         @rule(data=st.data())
